@@ -72,6 +72,9 @@ type SliceVal struct {
 	Elem types.Type
 	ESrt string
 	Own  Own // ownership class when Obj == nil
+	viewOf string  // the backing array term the view was taken of (the view is stale once the array is written)
+	View string    // optional: an array term equal to the window shifted to position 0 (View[k] == Arr[Off+k]); element
+	// reads go through it so that quantified facts are matched on (select View k) rather than on an arithmetic pattern
 	From *fieldLoc // the heap field this value slice was read from (writes through it are allowed when the owning
 	// object was allocated in the current call: they update the field)
 }
@@ -184,6 +187,18 @@ func (st *State) bind(obj types.Object, v Val) {
 	st.vars[obj] = v
 	if obj.Name() != "_" {
 		st.names[obj.Name()] = obj
+		// assignment history of the variable on this path: ver(x, n) in `have` clauses names the value x had after its
+		// n-th binding (parameters: 1 = the argument)
+		if st.ghost != nil {
+			ck := "vern:" + obj.Name()
+			n := 0
+			if c, ok := st.ghost[ck]; ok {
+				fmt.Sscanf(c.T, "%d", &n)
+			}
+			n++
+			st.ghost[ck] = intV(fmt.Sprintf("%d", n))
+			st.ghost[fmt.Sprintf("ver:%s:%d", obj.Name(), n)] = v
+		}
 	}
 }
 
